@@ -802,4 +802,7 @@ func genC18Wide(g *Gen) {
 
 	// ---- sections of sections ----
 	genC18Nested(g)
+
+	// ---- buffers over 1 MiB on a writer failing by position; two concurrent callers ----
+	genC18Big(g)
 }
